@@ -669,6 +669,48 @@ def cookie_full_stack_case():
                 return 'a conforming client presenting the right cookie response was answered %r and authenticated=%r' % (out, p._authenticated)
             if tamper and (p._authenticated or not out or not out[0].startswith(b'REJECTED')):
                 return 'a wrong cookie response was answered %r, authenticated=%r' % (out, p._authenticated)
+        # user names the bus cannot use (a NUL byte, nobody by that name) are answered REJECTED like any failed attempt
+        for uname in (b'a\0b', b'no_such_user_verif', b'', b'\xc3\xa9'):
+            p = bus.BusProtocol()
+            p.factory = F
+            t = StringTransport()
+            p.makeConnection(t)
+            try:
+                p.dataReceived(b'\0AUTH DBUS_COOKIE_SHA1 ' + binascii.hexlify(uname) + b'\r\n')
+            except Exception as e:
+                return 'AUTH DBUS_COOKIE_SHA1 for the user name %r raised %s: %s' % (uname, type(e).__name__, e)
+            out = [l for l in t.value().split(b'\r\n') if l]
+            if len(out) != 1 or not out[0].startswith(b'REJECTED'):
+                return 'AUTH DBUS_COOKIE_SHA1 for the user name %r answered %r, expected REJECTED' % (uname, out)
+        # a response computed WITHOUT the cookie (over an empty one) is never accepted - also when the peer let its cookie expire
+        import time as _time
+        real_time = _time.time
+        try:
+            p = bus.BusProtocol()
+            p.factory = F
+            t = StringTransport()
+            p.makeConnection(t)
+            p.dataReceived(b'\0AUTH DBUS_COOKIE_SHA1 ' + binascii.hexlify(str(os.getuid()).encode('ascii')) + b'\r\n')
+            ctx, cid, challenge = binascii.unhexlify(t.value().split(b'\r\n')[0][5:]).split()
+            t.clear()
+            authentication.time.time = lambda: real_time() + 45          # the cookie has expired from the keyring by now
+            kf = os.path.join(keyring, ctx.decode('ascii'))                # ... also for code that reads the clock another way:
+            if os.path.exists(kf):                                        # the keyring entry is dated 100 s back
+                rows = [l.split() for l in open(kf, 'rb').read().splitlines() if l.strip()]
+                with open(kf, 'wb') as f_:
+                    for r_ in rows:
+                        f_.write(b' '.join([r_[0], str(int(real_time()) - 100).encode('ascii'), r_[2]]) + b'\n')
+            cc = binascii.hexlify(b'late-client')
+            h = binascii.hexlify(hashlib.sha1(b':'.join([challenge, cc, b''])).digest())
+            try:
+                p.dataReceived(b'DATA ' + binascii.hexlify(cc + b' ' + h) + b'\r\n')
+                p.dataReceived(b'BEGIN\r\n')
+            except Exception as e:
+                return 'a late cookie response raised %s: %s' % (type(e).__name__, e)
+            if p._authenticated or any(l.startswith(b'OK') for l in t.value().split(b'\r\n')):
+                return 'a response hashed over an EMPTY cookie (sent after the cookie expired) was accepted: %r' % t.value()
+        finally:
+            authentication.time.time = real_time
         # the library's own client against the library's own bus: EXTERNAL is refused (no peer credentials here), the client
         # moves on to DBUS_COOKIE_SHA1, reads the cookie from the keyring and is accepted
         import pwd
